@@ -61,6 +61,10 @@ def gen_case_rng(rng, mode):
         if k == 'edit':
             op = W.gen_edit(rng, worlds[e])
             op['e'] = e
+            if op['op'] in ('write', 'replace') and rng.random() < 0.12:
+                # a content change that keeps the file's mtime: only a
+                # forced load is obliged to notice it
+                op['op'] = 'write_keep'
             ops.append(op)
         elif k == 'enforce':
             ops.append({'op': 'enforce', 'e': e, 'i': rng.randrange(1 << 16)})
@@ -232,6 +236,7 @@ def execute(case, backend='sim', record=False):
                     service_rules.default_rule)
         srules0 = snap_service_rules() if service_rules is not None else None
         detached = [False] * len(E)   # policy set by set_rules: no twin
+        stale_ok = [False] * len(E)   # a same-mtime edit awaits a forced load
         prev = [None] * len(E)        # printed rules after previous load
         prev_table = [None] * len(E)
         dirty = [True] * len(E)
@@ -275,8 +280,8 @@ def execute(case, backend='sim', record=False):
         def full_check(step, i):
             t = sims[i].table(E[i])
             after_load(step, i, t)
-            if detached[i]:
-                dg.add('check-detached', step, i, t)
+            if detached[i] or stale_ok[i]:
+                dg.add('check-without-twin', step, i, t)
                 return
             twin = sims[i].make_enforcer()
             tt = sims[i].table(twin)
@@ -301,10 +306,13 @@ def execute(case, backend='sim', record=False):
                 dirty[i] = True
                 prev_table[i] = None
                 cnt.hit('probe:one_rules_object_given_to_enforcers')
-            elif k in ('write', 'replace', 'empty', 'touch', 'unlink'):
+            elif k in ('write', 'replace', 'empty', 'touch', 'unlink',
+                       'write_keep'):
                 if sims[i].apply(op):
                     dirty[i] = True
                     cnt.hit('edits')
+                    if k == 'write_keep':
+                        stale_ok[i] = True
             elif k in ('load', 'force'):
                 if k == 'force' and detached[i]:
                     # documented: a forced reload overwrites rules given
@@ -313,6 +321,12 @@ def execute(case, backend='sim', record=False):
                     # a twin either way
                     dirty[i] = True
                     prev_table[i] = None
+                if k == 'force' and stale_ok[i]:
+                    # a forced load re-reads every file whatever its mtime
+                    stale_ok[i] = False
+                    dirty[i] = True
+                    prev_table[i] = None
+                    cnt.hit('probe:forced_load_after_same_mtime_edit')
                 try:
                     E[i].load_rules(force_reload=(k == 'force'))
                     r = 'ok'
@@ -351,6 +365,10 @@ def execute(case, backend='sim', record=False):
         if viol is None and case.get('mode') == 'threads':
             _threaded_phase(case, sims, E, fs, dg, cnt, judge)
             immut(len(case['ops']))
+        for sm in sims:
+            for k_, v_ in sm.counters.items():
+                if k_.startswith(('knob:', 'fault:')):
+                    cnt.hit(k_, v_)
         cnt.hit('fs_calls', fs.calls)
         cnt.hit('fault:readdir_order_not_sorted', fs.shuffled_listings)
         cnt.hit('enforcers', len(E))
@@ -618,7 +636,13 @@ META = {'C12': {
             'mode ends with all enforcers reloading concurrently under a '
             'seeded line-level schedule. Distinct = distinct event-log '
             'digest; non-trivial = at least one idempotence or isolation '
-            'comparison took place.',
+            'comparison took place. plain histories may also hand ONE '
+            'Rules object to several enforcers through set_rules(); after '
+            'every operation on enforcer i the printed stores of all other '
+            'enforcers must be unchanged. xproc mode: a fresh interpreter '
+            'forks two children, one executes the case alone, the other '
+            'first executes a decoy case with the same policy names; all '
+            'observed tables and printed stores must be identical.',
     'states_measure': 'hash of the printed rule store of an enforcer after '
                       'a load',
 }}
@@ -636,7 +660,8 @@ COMPONENTS = {
 }
 EXPECTED_PROBES = {'C12': ['multi_enforcer_runs',
                            'shared_deprecated_rule_across_enforcers',
-                           'one_rules_object_given_to_enforcers']}
+                           'one_rules_object_given_to_enforcers',
+                           'forced_load_after_same_mtime_edit']}
 
 
 def extra_coverage(prop, counters):
